@@ -335,13 +335,28 @@ def relabel_rows(table, mode):
 CASES = ("lower", "upper", "mixed")     # column spelling: c11 / C11 / only the VANISHING components in upper case
 
 
-def build_table(system, S, E, nv, ints=False, case="lower"):
+COLORDERS = ("o0", "o1", "o2")           # order of the component columns: as listed / reversed / rotated by half
+
+
+def column_order(S, order):
+    S = list(S)
+    if order == "o0":
+        return S
+    if order == "o1":
+        return S[::-1]
+    if order == "o2":
+        k = max(1, len(S) // 2)
+        return S[k:] + S[:k]
+    raise HarnessError(f"unknown column order {order}")
+
+
+def build_table(system, S, E, nv, ints=False, case="lower", order="o0"):
     import pandas
     if case not in CASES:
         raise HarnessError(f"unknown letter case {case}")
     nvn = set(L.nonvanishing(system))
     data = {"V": volumes(nv, ints)}
-    for j in S:
+    for j in column_order(S, order):
         name = L.NAMES[j]
         if case == "upper" or (case == "mixed" and j not in nvn):
             name = name.upper()
@@ -368,8 +383,13 @@ def with_vanishing(system, S, z):
 
 
 def fill_variants(system, extras):
-    """(nV, row labels, value shape, drop_atol, supplied vanishing zeros, letter case) for one subset"""
+    """(nV, row labels, value shape, drop_atol, supplied vanishing zeros, letter case[, working directory]) for one subset.
+    Working directory: empty scratch directory (default), or "dir": it contains a DIRECTORY named like the system (a
+    project laid out with one folder per phase).  A directory is not a relations file: the packaged relations apply.
+    (A regular FILE of that name legitimately is a user relations file; that alphabet belongs to C09.)"""
     out = [(nv, rows, "smooth", DROPS[0], "none", "lower") for nv in NVS for rows in ROWS if not (rows == "reversed" and nv == 1)]
+    if extras:
+        out += [(2, "default", "smooth", DROPS[0], "none", "lower", "dir")]
     if extras:
         out += [(2, "default", "dip", drop, "none", "lower") for drop in DROPS]
         out += [(nv, "default", "dip", 0.1, "none", "lower") for nv in (1, 5)]
@@ -393,7 +413,8 @@ def run_fill(case):
     nfill = 0
     outcomes = set()
     with scratch_cwd():
-        for nv, rows, shape, drop, z, lcase in fill_variants(s, case.get("extras", False)):
+        for nv, rows, shape, drop, z, lcase, *rest in fill_variants(s, case.get("extras", False)):
+            cwd = rest[0] if rest else "empty"
             E = expected_tensor(s, nv, shape=shape)
             S = with_vanishing(s, S0, z)
             table = relabel_rows(build_table(s, S, E, nv, case=lcase), rows)
@@ -401,12 +422,15 @@ def run_fill(case):
             nfill += 1
             dev = ([f"rows-{rows}"] if rows != "default" else []) + ([shape] if shape != "smooth" else []) + \
                   ([f"drop{drop:g}"] if drop != DROPS[0] else []) + ([f"z-{z}"] if z != "none" else []) + \
-                  ([f"case-{lcase}"] if lcase != "lower" else [])
+                  ([f"case-{lcase}"] if lcase != "lower" else []) + ([f"cwd-{cwd}"] if cwd != "empty" else [])
             tag = ":".join(["c08:fill"] + dev)
             kw = {} if drop == DROPS[0] else {"drop_atol": drop}
             note = f" row labels {list(table.index)}" + (f" value shape {shape}" if shape != "smooth" else "") + \
                    (f" drop_atol={drop}" if kw else "") + (f" with vanishing components supplied as 0 ({z})" if z != "none" else "") + \
-                   (f" columns {list(table.columns)}" if lcase != "lower" else "")
+                   (f" columns {list(table.columns)}" if lcase != "lower" else "") + \
+                   (f" in a working directory that contains the directory ./{s}/" if cwd == "dir" else "")
+            if cwd == "dir":
+                os.mkdir(s)
             try:
                 res = fill_cij(table.copy(), s, **kw)
             except BaseException as ex:
@@ -417,6 +441,9 @@ def run_fill(case):
                               f"{type(ex).__name__}: {str(ex)[:160]} although the supplied components determine the tensor"))
                 outcomes.add("raises")
                 continue
+            finally:
+                if cwd == "dir":
+                    os.rmdir(s)
             n0 = len(viol)
             check_invariant_result(s, S, E, vin, res, viol, tag, note=note, drop=drop)
             outcomes.add("ok" if len(viol) == n0 else "wrong")
@@ -433,6 +460,7 @@ def run_elastdata(case):
     s, nv, mask = case["system"], case["nv"], case["mask"]
     z, shape, drop = case.get("z", "none"), case.get("shape", "smooth"), case.get("drop", DROPS[0])
     keyorder = case.get("keyorder", "same")
+    cwd = case.get("cwd", "empty")
     S = L.mask_to_subset(s, mask)
     if not L.is_sufficient(s, S):
         raise HarnessError(f"{s}: mask {mask} is not sufficient")
@@ -450,6 +478,9 @@ def run_elastdata(case):
            + (f" per-volume key order {keyorder}: {[names(key_order(S, i, keyorder))[:3] for i in range(nv)]}..." if keyorder != "same" else "")
            + (f" value shape {shape}" if shape != "smooth" else "") + (f" vanishing components listed as 0 ({z})" if z != "none" else ""))
     with scratch_cwd():
+        if cwd == "dir":
+            os.mkdir(s)
+            tag += f" in a working directory that contains the directory ./{s}/"
         try:
             ret = apply_symetry_on_elast_data(data, dict(symmetry))
         except BaseException as ex:
@@ -461,7 +492,7 @@ def run_elastdata(case):
         data = ret       # tolerate a functional variant
     check_elastdata(data, s, S, E, vol, tag, viol, "c08:elastdata", drop=drop)
     return {"viol": dedupe(viol), "outcome": f"elastdata:{s}:{'ok' if not viol else 'wrong'}",
-            "key": f"elastdata:{s}:{mask}:{nv}:{case['full_keys']}:{z}:{shape}:{drop}:{keyorder}"}
+            "key": f"elastdata:{s}:{mask}:{nv}:{case['full_keys']}:{z}:{shape}:{drop}:{keyorder}:{cwd}"}
 
 
 KEYORDERS = ("same", "alt-reversed", "rotated")
@@ -584,6 +615,51 @@ def run_history(case):
             "key": f"history:{s}:{''.join(hist)}", "steps": len(hist)}
 
 
+# --------------------------------------------------------------------------- part 5 (mode B): process histories of fill_cij
+
+def order_history_ops(system):
+    """alphabet: (subset label, column order).  a = minimal sufficient set, b = full non-vanishing set (for the systems
+    without dependent components a = b: then only the orders differ)"""
+    n = len(L.nonvanishing(system))
+    subs = {"a": minimal_mask(system), "b": (1 << n) - 1}
+    ops = [("a", o) for o in COLORDERS]
+    if subs["b"] != subs["a"]:
+        ops += [("b", "o0"), ("b", "o1")]
+    return subs, ops
+
+
+def run_order_history(case):
+    """fill_cij called several times IN ONE PROCESS on fresh tables of the same system: same component set in different
+    column orders, and different sets.  Every result must be the invariant tensor (nothing may be remembered from an
+    earlier call).  Each call uses its own value set (volume count differs with the position in the history)."""
+    from cij.util.fill import fill_cij
+    s, hist = case["system"], case["history"]
+    subs, _ = order_history_ops(s)
+    viol = []
+    with scratch_cwd():
+        for step, (lab, order) in enumerate(hist, 1):
+            nv = 1 + step % 3
+            S = L.mask_to_subset(s, subs[lab])
+            E = expected_tensor(s, nv, ints=(step % 2 == 0))
+            table = build_table(s, S, E, nv, order=order)
+            vin = table["V"].to_numpy().copy()
+            done = " then ".join(f"[{','.join(names(column_order(L.mask_to_subset(s, subs[l]), o)))}]" for l, o in hist[:step])
+            try:
+                res = fill_cij(table.copy(), s)
+            except BaseException as ex:
+                if isinstance(ex, (KeyboardInterrupt, SystemExit)):
+                    raise
+                viol.append(V(f"c08:order-history:{s}:raises:{type(ex).__name__}",
+                              f"{s}: fill_cij calls in one process on tables with columns {done}: call {step} raised {type(ex).__name__}: {str(ex)[:160]}"))
+                break
+            check_invariant_result(s, S, E, vin, res, viol, "c08:order-history",
+                                   note=f" call {step} of one process, tables so far: {done}")
+            if viol:
+                break
+    return {"viol": dedupe(viol, 1), "outcome": "order-history:" + ("ok" if not viol else "wrong-result"),
+            "key": f"order-history:{s}:{hist}", "steps": len(hist)}
+
+
 def run_case(case):
     kind = case["kind"]
     if kind == "subspace":
@@ -594,6 +670,8 @@ def run_case(case):
         return run_elastdata(case)
     if kind == "history":
         return run_history(case)
+    if kind == "order-history":
+        return run_order_history(case)
     raise HarnessError(f"unknown case kind {kind}")
 
 
@@ -710,6 +788,7 @@ def explore(ctx):
                     if vanishing(s):      # the input lists vanishing components explicitly, as zeros
                         for z in ("zeros", "zero-one"):
                             cases.append({"kind": "elastdata", "system": s, "mask": mask, "nv": nv, "full_keys": fk, "z": z})
+                cases.append({"kind": "elastdata", "system": s, "mask": mask, "nv": nv, "full_keys": False, "cwd": "dir"})
                 # per-volume dict key order (same key set, different insertion order at different volumes)
                 if nv > 1:
                     for ko in KEYORDERS[1:]:
@@ -729,6 +808,21 @@ def explore(ctx):
              for s in L.SYSTEMS for k in range(1, depth + 1) for h in itertools.product(HISTORY_OPS, repeat=k)]
     ctx.run(MOD, "run_case", cases, part=f"shared-settings-histories-depth{depth}", states=len(cases),
             transitions=sum(len(c["history"]) for c in cases))
+    # ---- part 5 (mode B): several fill_cij calls in one process (same set / other column order, other sets)
+    odepth = 2 if ctx.quick else 3
+    cases = []
+    for s in L.SYSTEMS:
+        _, ops = order_history_ops(s)
+        for k in range(2, odepth + 1):
+            hs = list(itertools.product(ops, repeat=k))
+            # histories that present one set in two different orders first (their verdict does not depend on what the
+            # worker process did before)
+            hs.sort(key=lambda h: 0 if any(a[0] == b[0] and a[1] != b[1] for a in h for b in h) else 1)
+            cases += [{"kind": "order-history", "system": s, "history": [list(op) for op in h]} for h in hs]
+    ctx.run(MOD, "run_case", cases, part=f"column-order-histories-depth{odepth}", states=len(cases),
+            transitions=sum(len(c["history"]) for c in cases))
+    ctx.notes["column_order_history_alphabet"] = {"orders": list(COLORDERS), "subsets": ["minimal", "full"], "depth": odepth,
+                                                  "histories": len(cases)}
     ctx.notes["history_alphabet"] = {"ops": list(HISTORY_OPS), "depth": depth, "histories_per_system": len(cases) // len(L.SYSTEMS)}
     ctx.notes["row_label_alphabet"] = list(ROWS)
     ctx.notes["letter_case_alphabet"] = list(CASES)
